@@ -3,7 +3,7 @@
    and Proofs/PolicyPre.v. *)
 From Coq Require Import List NArith ZArith Bool.
 From RB Require Import Base.Val Model.Policy Model.PolicyTable Model.PolicyPre Spec.PolicySpec
-  Proofs.Policy Proofs.PolicyTable Proofs.PolicyPre Proofs.PolicyWire Proofs.PolicyWf.
+  Model.PolicyGlobal Proofs.Policy Proofs.PolicyTable Proofs.PolicyPre Proofs.PolicyWire Proofs.PolicyWf Proofs.PolicyGlobal.
 Import ListNotations.
 Open Scope N_scope.
 
@@ -108,6 +108,33 @@ Check crud_referenced_frozen :
       lookup_pol (p_name p) (t_pols t') = lookup_pol (p_name p) (t_pols t)
       /\ lookup_pol (p_name p) (t_pols t') = Some p).
 Print Assumptions crud_referenced_frozen.
+
+(* 7b. the same at the level of the daemon's Global: per-peer export-policy
+       overrides are users too.  The invariant (table invariant + every policy
+       held by a peer's override is the table's entry of that name) is preserved
+       by every modelled call and holds along every history *)
+Theorem global_preserves_references :
+  (forall g o g' code, grefs_ok g -> gstep g o = Ok (g', code) -> grefs_ok g') /\
+  (forall l, grefs_ok (grun_history empty_global l)).
+Proof. exact C14_global_preserves_references. Qed.
+Check global_preserves_references :
+  (forall g o g' code, grefs_ok g -> gstep g o = Ok (g', code) -> grefs_ok g') /\
+  (forall l, grefs_ok (grun_history empty_global l)).
+Print Assumptions global_preserves_references.
+
+(* 7c. what a surviving per-peer override references is neither deleted nor changed *)
+Theorem global_referenced_frozen :
+  forall g o g' code, grefs_ok g -> gstep g o = Ok (g', code) ->
+  forall peer a p, In (peer, Some a) (g_peers g) -> In (peer, Some a) (g_peers g') -> In p (as_pols a) ->
+    lookup_pol (p_name p) (t_pols (g_table g')) = lookup_pol (p_name p) (t_pols (g_table g))
+    /\ lookup_pol (p_name p) (t_pols (g_table g')) = Some p.
+Proof. exact C14_global_referenced_frozen. Qed.
+Check global_referenced_frozen :
+  forall g o g' code, grefs_ok g -> gstep g o = Ok (g', code) ->
+  forall peer a p, In (peer, Some a) (g_peers g) -> In (peer, Some a) (g_peers g') -> In p (as_pols a) ->
+    lookup_pol (p_name p) (t_pols (g_table g')) = lookup_pol (p_name p) (t_pols (g_table g))
+    /\ lookup_pol (p_name p) (t_pols (g_table g')) = Some p.
+Print Assumptions global_referenced_frozen.
 
 (* 9. on an AS_PATH the wire decoder accepts, the byte-level iterator yields
       exactly the segments and as_path_length is the unbounded hop count *)
